@@ -20,6 +20,27 @@ theorem wrapErrR {s0 : State} {m : EvalM RVal} (hm : Tr s0 m) (g : State → Sta
   | err v msg p t s2 => exact fun h => h.geq (hg s2)
   | fail f s2 => exact id
 
+theorem geq_restoreVars (env : EnvId) (hidden : List (String × RVal)) (s : State) : GEq s (restoreVars env hidden s) := by
+  unfold restoreVars
+  exact geq_foldl (fun s (xv : String × RVal) => s.put env xv.1 xv.2) (fun s xv => geq_put s env xv.1 xv.2) hidden s
+
+/-- the wrapper of the `for` node: the final state of a value outcome and of an error outcome is post-processed by a
+    function of the start state and the final state that leaves the ghost counters alone -/
+theorem wrapForR {s0 : State} {m : EvalM RVal} (hm : Tr s0 m) (h g : State → State → State)
+    (hh : ∀ s1 s, GEq s (h s1 s)) (hg : ∀ s1 s, GEq s (g s1 s)) :
+    Tr s0 (fun s1 =>
+      match m s1 with
+      | .ok v s2 => .ok v (h s1 s2)
+      | .err v msg p t s2 => .err v msg p t (g s1 s2)
+      | other => other) := by
+  refine ⟨fun s1 hs1 => ?_⟩
+  have h' := hm.run s1 hs1
+  revert h'
+  cases m s1 with
+  | ok a s2 => exact fun h' => h'.geq (hh s1 s2)
+  | err v msg p t s2 => exact fun h' => h'.geq (hg s1 s2)
+  | fail f s2 => exact id
+
 /-- the finally stage of a block: one entry and one finally run at `pos` cancel -/
 theorem Post.block {α} {s0 s s1 : State} {pos : Pos} {o : Out α}
     (hs : Balanced s0 s) (h1 : Balanced (ghostEnter s pos) s1) (ho : Post (ghostFin s1 pos) o) :
@@ -104,7 +125,11 @@ theorem step_eval (ih : AllBal ld fuel) : ∀ s0 env n, Tr s0 (eval ld (fuel+1) 
         cases evalFinally ld fuel env fin (ghostFin s1 pos) <;> first | exact id | exact fun h _ => h
   | «for» ids e body what pos =>
     simp only [Ckl.eval]
-    exact wrapErrR (ihFor _ _ _ _ _ _ _) _ (fun s => geq_foldl _ (fun s x => geq_remove s env x) ids s)
+    exact wrapForR (ihFor _ _ _ _ _ _ _)
+      (fun s1 s => restoreVars env (hiddenVars s1 env ids) s)
+      (fun s1 s => restoreVars env (hiddenVars s1 env ids) (ids.foldl (fun s x => s.remove env x) s))
+      (fun s1 s => geq_restoreVars env _ s)
+      (fun s1 s => (geq_foldl _ (fun s x => geq_remove s env x) ids s).trans (geq_restoreVars env _ _))
   | lambda ps ds body pos =>
     simp only [Ckl.eval]
     exact ⟨fun s hs => hs.geq ⟨rfl, rfl⟩⟩
